@@ -303,6 +303,34 @@ func (g *Gen) moduleFee(o *lab.Obs, msgs []sdk.Msg, exactPct int) sdk.Coins {
 // nonOwnerPct: how often a non-owner tries.
 func (g *Gen) WrkBeaconTx(o *lab.Obs, nonOwnerPct, exactFeePct int) *TxPlan {
 	r := g.E.R
+	// register + use the id that registration will receive in the same tx, optionally followed by a
+	// failing message so that the whole tx (incl. the id assignment) rolls back and the id is handed
+	// to the next registrant
+	if r.Chance(7) {
+		signer := g.randAcct()
+		var msgs []sdk.Msg
+		if r.Bool() {
+			msgs = []sdk.Msg{g.WrkRegisterMsg(signer), g.WrkRecordMsg(o.NextWrk, 0, signer)}
+			if r.Chance(60) {
+				msgs = append(msgs, &wrkchaintypes.MsgPurchaseWrkChainStateStorage{WrkchainId: o.NextWrk, Number: 1, Owner: signer.Addr.String()})
+			}
+			if r.Chance(55) {
+				msgs = append(msgs, &wrkchaintypes.MsgRecordWrkChainBlock{WrkchainId: o.NextWrk + 77, Height: 1, BlockHash: "f", Owner: signer.Addr.String()})
+			}
+		} else {
+			msgs = []sdk.Msg{g.BeaconRegisterMsg(signer), g.BeaconRecordMsg(o.NextBeacon, signer)}
+			if r.Chance(60) {
+				msgs = append(msgs, &beacontypes.MsgPurchaseBeaconStateStorage{BeaconId: o.NextBeacon, Number: 1, Owner: signer.Addr.String()})
+			}
+			if r.Chance(55) {
+				msgs = append(msgs, &beacontypes.MsgRecordBeaconTimestamp{BeaconId: o.NextBeacon + 77, Hash: "f", SubmitTime: 5, Owner: signer.Addr.String()})
+			}
+		}
+		for _, m := range msgs {
+			setOwner(m, signer, g)
+		}
+		return g.plan(signer, g.moduleFee(o, msgs, exactFeePct), msgs...)
+	}
 	nm := r.Weighted([]int{70, 20, 10}) + 1
 	var msgs []sdk.Msg
 	var signer lab.Acct
